@@ -249,7 +249,7 @@ def c17(res, tier, deadline):
 @check("C10")
 def c10(res, tier, deadline):
     res.rule = ("the same registries (spaces as in C01) under each RTTI flavour: std_rtti (rel), "
-                "integer ids with identity projection without hash (int), two ids per class with "
+                "integer ids with identity projection without hash (int) and with the fast hash and ids starting at 0 (inh), two ids per class with "
                 "type_index(id)=id/2 with fast (prj), checked (prc) and without (prn) hash, deferred ids without (dfr) "
                 "and with (dfh) hash; each followed by a second update on the same registrations. "
                 "For prj/prn every assignment of aliases to every use of a class id (records, base "
@@ -267,7 +267,7 @@ def c10(res, tier, deadline):
            "n=1-5,k=1,d=2,shapes=P|S|C|V|W|X|NR;n=1-4,k=2,d=2,shapes=VV|RV|PP|RNR|WV|XX,pres=full|split")
     space = base if tier == "quick" else big
     runs = [Run(tag, "dispatch", space, "C01,C03", extra="reupdate=1", dump_mod=1999)
-            for tag in ("rel", "int", "prj", "prn", "dfr", "dfh")]
+            for tag in ("rel", "int", "inh", "prj", "prn", "dfr", "dfh")]
     fl = ("n=1-2,k=2,d=2,shapes=RR,limit=10;n=1-3,k=1,d=2,shapes=R|V,limit=8;"
           "n=3-4,k=2,d=2,shapes=RR,limit=0;n=1-3,k=3,d=1,shapes=RRR,limit=0")
     if tier != "quick":
@@ -315,7 +315,7 @@ def c15(res, tier, deadline):
 
 @check("C12")
 def c12(res, tier, deadline):
-    res.rule = ("registries with one method of arity k (1..4) that has (mutable) static offsets + "
+    res.rule = ("registries with one method of arity k (1..4; virtual_<T&> parameters, and virtual_ptr mixed with them) that has (mutable) static offsets + "
                 "an ordinary unary method on every class, both registration orders: the text "
                 "written by the real generator::write_static_offsets is parsed and compared, "
                 "position by position, with the compiler result and the installed slots/strides; "
@@ -328,10 +328,13 @@ def c12(res, tier, deadline):
         "mutable static_offsets<> specialisations stand in for a program compiled with the generated constexpr header; the two-stage program family (4 real domains, arity 1..4, release and debug policy, g++ and clang++) binds the stand-in to real constexpr headers"]
     if tier == "quick":
         sp = ("n=1-4,k=1,d=1;n=1-4,k=2,d=1;n=1-3,k=3,d=1;n=1-3,k=4,d=1,pres=full;"
-              "n=1-3,k=2,d=2,pres=full|direct;n=4,k=3,d=0")
+              "n=1-3,k=2,d=2,pres=full|direct;n=4,k=3,d=0;"
+              # the same with virtual_ptr parameters (V, RV, VRV, RVRV)
+              "n=1-3,k=1,d=1,vp=1;n=1-3,k=2,d=1,vp=1;n=1-3,k=3,d=1,vp=1;n=1-2,k=4,d=1,vp=1,pres=full")
     else:
         sp = ("n=1-5,k=1,d=2;n=1-5,k=2,d=1;n=1-4,k=3,d=1;n=1-3,k=4,d=1,pres=full|direct;"
-              "n=1-4,k=2,d=2,pres=full|direct;n=4,k=4,d=0")
+              "n=1-4,k=2,d=2,pres=full|direct;n=4,k=4,d=0;"
+              "n=1-4,k=1,d=2,vp=1;n=1-4,k=2,d=1,vp=1;n=1-4,k=3,d=1,vp=1;n=1-3,k=4,d=1,vp=1,pres=full")
     runs = [Run("rel", "offsets", sp), Run("dbg", "offsets", sp, variant="assert")]
     e1.execute(res, runs, deadline_total=deadline, second_oracle=False)
     engines.gen2_stage(res, "OFFSETS", tier)
